@@ -75,6 +75,20 @@ func c16Job(id int, cs c16Case, rc string, keys map[string]string) harness.Job {
 	cfg.Probes = append(cfg.Probes, harness.Probe{Name: "verif-seed-b", Kind: "seed", Arg: cs.buf, Pos: cs.pos})
 	ans = append(ans, Key(c16SeedB))
 	from := len(ans)
+	if strings.HasPrefix(cs.reuse, "series") {
+		if cs.mode == "vi" {
+			for i := 0; i < cs.viCnt; i++ {
+				ans = append(ans, Key("x"))
+			}
+			ans = append(ans, Key("P"))
+		} else {
+			for _, txt := range strings.Split(strings.TrimPrefix(cs.reuse, "series:"), "\x00") {
+				ans = append(ans, Key(txt), Key(keys[cs.kills[0]]))
+			}
+			ans = append(ans, Key(keys["yank"]))
+		}
+		return harness.Job{ID: id, Cfg: cfg, Calls: [][]harness.Answer{ans}, Want: harness.Want{Obs: 2, From: from}}
+	}
 	if cs.mode == "vi" {
 		if cs.viCnt > 1 {
 			ans = append(ans, Key(fmt.Sprint(cs.viCnt)))
@@ -123,6 +137,35 @@ func c16Verdict(cs c16Case, t *harness.Trace) (fp, what string, nontrivial bool)
 		if w.Obs != nil && w.Obs.Kind == "main" {
 			obs = append(obs, w.Obs)
 		}
+	}
+	if strings.HasPrefix(cs.reuse, "series") {
+		// a series of kills (each of a text typed just before it; vi: x pressed several times), then one
+		// yank / put-before: every kill buffer is the text that kill removed, and the yank inserts the last
+		var removed string
+		var beforeYank *harness.Obs
+		nk := 0
+		for i := 0; i+1 < len(obs)-1; i++ {
+			a, b := obs[i], obs[i+1]
+			if len([]rune(b.Line)) >= len([]rune(a.Line)) {
+				continue // typing
+			}
+			nk++
+			if !insertedAt(b.Line, b.Kill, a.Line) {
+				return "kill-buffer-is-not-the-removed-text/series", fmt.Sprintf("%s: kill #%d of the series changed %q into %q but the kill buffer holds %q", cs, nk, a.Line, b.Line, b.Kill), true
+			}
+			removed = b.Kill
+		}
+		if nk < 2 || len(obs) < 2 {
+			return "", "", false
+		}
+		beforeYank, final := obs[len(obs)-2], obs[len(obs)-1]
+		if strings.Contains(removed, "\n") && cs.mode == "vi" {
+			return "", "", true
+		}
+		if !insertedAt(beforeYank.Line, removed, final.Line) {
+			return "yank-does-not-insert-last-kill/series", fmt.Sprintf("%s: the last kill of the series removed %q; yank changed %q into %q", cs, removed, beforeYank.Line, final.Line), true
+		}
+		return "", "", true
 	}
 	if cs.reuse != "" {
 		// obs: before kill, after kill, after yank, after C-a, after the edit, after C-e, after the second yank
@@ -231,7 +274,7 @@ func runC16(c *Ctx) {
 		c.Deadline = c.Start.Add(40 * time.Minute)
 	}
 	bufs := c02Strings(c16Alphabet, L)
-	c.Rule = fmt.Sprintf("all buffers of length <= %d over %q x every cursor position x %d kill commands (by name) x numeric argument {none, 2}; kill-region with the mark at every other position; every ordered pair of kill commands on buffers of length <= %d; vi x with count {1,2,3} then P; every single kill followed by yank, an edit at the start of the line (insert / delete-char), end-of-line and a second yank (the kill buffer must not change, the second yank inserts it again). State planted by a registered command (Line().Set/Cursor().Set), cross-checked against typing on short cases. non-trivial = distinct cases in which a kill removed something", L, c16Alphabet, len(c16Kills), L-1)
+	c.Rule = fmt.Sprintf("all buffers of length <= %d over %q x every cursor position x %d kill commands (by name) x numeric argument {none, 2}; kill-region with the mark at every other position; every ordered pair of kill commands on buffers of length <= %d; vi x with count {1,2,3} then P; every single kill followed by yank, an edit at the start of the line (insert / delete-char), end-of-line and a second yank (the kill buffer must not change, the second yank inserts it again). series of 3-4 kills of typed texts (texts recurring in the series) then yank, vi x pressed 3-4 times then P. State planted by a registered command (Line().Set/Cursor().Set), cross-checked against typing on short cases. non-trivial = distinct cases in which a kill removed something", L, c16Alphabet, len(c16Kills), L-1)
 	c.Bounds = map[string]any{"max_len": L, "alphabet": c16Alphabet, "kill_commands": c16Kills, "pairs_up_to_len": L - 1}
 	c.Assumptions = []string{"delete-word is not a kill (documented)", "in vi mode only delete-character + put-before must restore (statement); registers containing a newline are put line-wise as documented and are not judged; when x removes the last character of a line the cursor is clamped and the restore clause does not apply"}
 
@@ -267,6 +310,31 @@ func runC16(c *Ctx) {
 				for cnt := 1; cnt <= 3; cnt++ {
 					cases = append(cases, c16Case{buf: b, pos: pos, mark: -1, mode: "vi", viCnt: cnt})
 				}
+			}
+		}
+	}
+	// series of three and four kills of typed texts (the same text may come back later in the
+	// series), then yank; vi: x three / four times on a buffer over {a, b}, then P
+	{
+		texts := []string{"a", "b", "a b"}
+		var rec func(p []string)
+		rec = func(p []string) {
+			if len(p) >= 3 {
+				for _, k := range []string{"unix-line-discard", "backward-kill-line", "kill-whole-line"} {
+					cases = append(cases, c16Case{mark: -1, kills: []string{k}, mode: "emacs", reuse: "series:" + strings.Join(p, "\x00")})
+				}
+			}
+			if len(p) == 4 {
+				return
+			}
+			for _, t := range texts {
+				rec(append(append([]string{}, p...), t))
+			}
+		}
+		rec(nil)
+		for _, b := range c02Strings([]string{"a", "b"}, 5) {
+			if n := len(b); n >= 4 {
+				cases = append(cases, c16Case{buf: b, mark: -1, mode: "vi", viCnt: 3, reuse: "series"}, c16Case{buf: b, mark: -1, mode: "vi", viCnt: 4, reuse: "series"})
 			}
 		}
 	}
